@@ -57,6 +57,23 @@ func (m Intervals) IsValid() error {
 		}
 		intervalMap[intervalType] = i
 	}
+	// the smallest interval is the write interval, the others are rollup targets: a rollup maps the
+	// source slots to target slots by the interval ratio, so a target interval must be a multiple
+	// of the write interval.
+	var writeInterval timeutil.Interval
+	for _, i := range m {
+		if writeInterval == 0 || i.Interval < writeInterval {
+			writeInterval = i.Interval
+		}
+	}
+	if writeInterval > 0 {
+		for _, i := range m {
+			if i.Interval%writeInterval != 0 {
+				return fmt.Errorf("interval %s is not a multiple of the write interval %s",
+					i.Interval.String(), writeInterval.String())
+			}
+		}
+	}
 	return nil
 }
 
